@@ -299,3 +299,132 @@ impl<P: Protocol> Net<P> {
         format!("peers={:?} pending={:?} claims={:?}", peers, pending, claims)
     }
 }
+
+// ---------------------------------------------------------------------------------------------------------------
+// Scripted peer: the harness speaks the protocol itself through a REAL PeerCrypto<NodeInfo>, so that a node can be
+// shown things a real node would not say on its own (given advertised timeout, changed claims, close, silence).
+
+use crate::{
+    crypto::{Crypto, MessageResult, PeerCrypto},
+    messages::NodeInfo,
+    types::{NodeId, RangeList},
+    util::MsgBuffer,
+};
+
+pub struct Scripted {
+    pub addr: SocketAddr,
+    pub crypto: Crypto,
+    pub pc: PeerCrypto<NodeInfo>,
+    pub node_id: NodeId,
+    pub established: bool,
+    /// node information received from the node at handshake completion
+    pub peer_info: Option<NodeInfo>,
+    /// messages (type, cleartext) received after the handshake
+    pub received: Vec<(u8, Vec<u8>)>,
+    /// the one node this peer talks to (datagrams of other nodes are not answered, as if filtered by a NAT)
+    pub talks_to: Option<usize>,
+}
+
+impl Scripted {
+    pub fn info(node_id: NodeId, claims: &[crate::types::Range], peer_timeout: Option<u16>, addr: SocketAddr) -> NodeInfo {
+        let claims: RangeList = claims.iter().cloned().collect();
+        NodeInfo { node_id, peers: smallvec::smallvec![], claims, peer_timeout, addrs: smallvec::smallvec![addr] }
+    }
+
+    pub fn new(port: u16, nid: u8, key: usize, trusted: &[usize], claims: &[crate::types::Range], peer_timeout: Option<u16>) -> Self {
+        let addr = addr_of(port);
+        let node_id = node_id(nid);
+        let crypto = mk_crypto(node_id, &cfg_with_key(key, trusted, &[]), [100.0, 90.0, 80.0]).expect("crypto");
+        cv::init_verif::set_salt_override(Some([0x08, 0, 0, nid]));
+        let pc = crypto.peer_instance(Self::info(node_id, claims, peer_timeout, addr));
+        cv::init_verif::set_salt_override(None);
+        Scripted { addr, crypto, pc, node_id, established: false, peer_info: None, received: vec![], talks_to: None }
+    }
+
+    /// Sends the ping (the handshake continues through `pump`).
+    pub fn dial<P: Protocol>(&mut self, net: &mut Net<P>, to: usize) {
+        let mut buf = MsgBuffer::new(SPACE);
+        self.pc.initialize(&mut buf).expect("initialize");
+        let data = buf.message().to_vec();
+        self.talks_to = Some(to);
+        net.inject(to, self.addr, data);
+    }
+
+    /// Processes every datagram the network holds for this peer; replies go straight to the sending node.
+    pub fn pump<P: Protocol>(&mut self, net: &mut Net<P>) {
+        loop {
+            let pos = match net.queue.iter().position(|w| w.to == self.addr) {
+                Some(p) => p,
+                None => break,
+            };
+            let w = net.queue.remove(pos).unwrap();
+            let from = match net.node_index(&w.from) {
+                Some(i) => i,
+                None => continue,
+            };
+            if self.talks_to.is_some() && self.talks_to != Some(from) {
+                continue;
+            }
+            let mut buf = MsgBuffer::new(SPACE);
+            load(&mut buf, &w.data);
+            if std::env::var("VERIF_TRACE_PUMP").is_ok() {
+                eprintln!("pump t=+{} from node {} len {} first {:?}", net.now - START_TIME, from, w.data.len(), w.data.first());
+            }
+            match self.pc.handle_message(&mut buf) {
+                Ok(MessageResult::Initialized(info)) => {
+                    self.established = true;
+                    self.peer_info = Some(info);
+                }
+                Ok(MessageResult::InitializedWithReply(info)) => {
+                    self.established = true;
+                    self.peer_info = Some(info);
+                    let d = buf.message().to_vec();
+                    net.inject(from, self.addr, d);
+                }
+                Ok(MessageResult::Reply) => {
+                    let d = buf.message().to_vec();
+                    if !d.is_empty() {
+                        net.inject(from, self.addr, d);
+                    }
+                }
+                Ok(MessageResult::Message(t)) => self.received.push((t, buf.message().to_vec())),
+                Ok(MessageResult::None) => {}
+                Err(_) => {}
+            }
+        }
+    }
+
+    /// Complete handshake with node `to` (scripted peer initiates).
+    pub fn connect<P: Protocol>(&mut self, net: &mut Net<P>, to: usize) -> bool {
+        self.dial(net, to);
+        for _ in 0..6 {
+            self.pump(net);
+        }
+        self.established
+    }
+
+    /// One sealed message of type `t` with cleartext `payload` to node `to`.
+    pub fn send<P: Protocol>(&mut self, net: &mut Net<P>, to: usize, t: u8, payload: &[u8]) {
+        let mut buf = MsgBuffer::new(SPACE);
+        load(&mut buf, payload);
+        self.pc.send_message(t, &mut buf).expect("send_message");
+        let d = buf.message().to_vec();
+        net.inject(to, self.addr, d);
+    }
+
+    pub fn send_info<P: Protocol>(&mut self, net: &mut Net<P>, to: usize, info: &NodeInfo) {
+        let mut buf = MsgBuffer::new(SPACE);
+        info.encode(&mut buf);
+        let payload = buf.message().to_vec();
+        self.send(net, to, crate::messages::MESSAGE_TYPE_NODE_INFO, &payload);
+    }
+
+    /// The peer's own per-second duties (replay window, rotation); rotation datagrams are delivered to `to`.
+    pub fn tick<P: Protocol>(&mut self, net: &mut Net<P>, to: usize) {
+        let mut out = MsgBuffer::new(SPACE);
+        if let Ok(MessageResult::Reply) = self.pc.every_second(&mut out) {
+            let d = out.message().to_vec();
+            net.inject(to, self.addr, d);
+        }
+    }
+}
